@@ -15,7 +15,7 @@ ID = "C02"
 COQ_IMPORT = "Corr.CNodes"
 COQ_CASE_TYPE = "g_case"
 COQ_CHECK = "g_check"
-THEOREMS = []
+THEOREMS = ["c02_read_sees_normalised_dict", "c02_arrays_identical", "c02_zero_dim", "c02_fields_are_in_the_dictionary"]
 PROOF_FILES = ["Proofs/SerialProofs.v"]
 RULE = ("cross product dtype (14) x rank 0..5 x shape pool (incl. (0,), (0,3), ()) x value class {NaN payloads both "
         "signs, all-(+/-)zero with some -0, subnormals, infinities, integer extremes, all-ones bit pattern, random} x "
